@@ -359,16 +359,15 @@ async fn scenario(role: Role, rng: &mut Rng, ch: &mut dyn Choose) -> Outc {
         }
     }
     // payload of completed streams
-    let wire_payloads: HashMap<Vec<u8>, usize> = app.wire().iter().filter_map(|(_, p)| if let R::Publish { topic, payload, .. } = p { topic.starts_with("w/stream/").then(|| payload.clone()) } else { None }).fold(HashMap::new(), |mut m, p| {
-        *m.entry(p).or_insert(0) += 1;
-        m
-    });
+    // (every stream has a topic of its own, `w/stream/<op>`: its PUBLISH is identified exactly; a
+    // stream that was cut by the ending before it was flushed has no complete packet to judge)
     for (op, written) in &completed_streams {
-        if c.peer.garbage.is_none() && !wire_payloads.contains_key(written) {
-            // the stream may have been cut by the ending before it was flushed; only judge if a
-            // later packet made it to the wire
-            let later = app.wire().iter().any(|(_, p)| matches!(p, R::Publish { topic, payload, .. } if topic.starts_with("w/stream/") && payload.len() == written.len()));
-            if later {
+        if c.peer.garbage.is_some() {
+            continue;
+        }
+        let own = format!("w/stream/{op}");
+        if let Some(payload) = app.wire().iter().find_map(|(_, p)| if let R::Publish { topic, payload, .. } = p { (*topic == own).then(|| payload.clone()) } else { None }) {
+            if payload != *written {
                 o.violations.push(("payload of a streamed PUBLISH differs from the bytes the application wrote".into(), format!("stream op {op}, {} bytes", written.len())));
             }
         }
@@ -377,7 +376,11 @@ async fn scenario(role: Role, rng: &mut Rng, ch: &mut dyn Choose) -> Outc {
     for op in &ops {
         if op.what == "stream-q1-ack" && matches!(op.result(), Some(SinkRes::ErrStreamingCancelled)) {
             o.failing_ops_checked += 1;
-            let m = format!("w/stream/{}", op.id).into_bytes();
+            // the topic as it stands in a PUBLISH header: length prefix + name (exact, "w/stream/1"
+            // is not a prefix match of "w/stream/12")
+            let name = format!("w/stream/{}", op.id).into_bytes();
+            let mut m = vec![0u8, name.len() as u8];
+            m.extend_from_slice(&name);
             if c.peer.raw.windows(m.len()).any(|w| w == m.as_slice()) {
                 o.violations.push(("a streamed send that reported 'cancelled' left its PUBLISH header on the wire".into(), format!("{} -> {:?}", op.what, op.result())));
             }
